@@ -29,6 +29,7 @@ def _modify(paths; update):
       | (setpath([0] + $p; getpath([0] + $p) | update) | ., break $out),
         setpath([1, (.[1] | length)]; $p))
     | . as $x | $x[0] | delpaths($x[1]);
+def _modify_alt(paths; $v): _modify(paths; . // $v);
 def map_values(f): .[] |= f;
 def recurse(f): def r: ., (f | r); r;
 def recurse(f; cond): def r: ., (f | select(cond) | r); r;
@@ -108,6 +109,7 @@ def _reverse_s: if type == \"array\" then [.[length - 1 - range(0;length)]] else
 def _flatten_s: _flatten(1);
 def _flatten1_s($x): if $x < 0 then _unmodelled else _flatten($x) end;
 def _modify_s(paths; update): [path(paths)] as $ps | reduce $ps[] as $p (.; . as $x | label $out | (setpath($p; $x | getpath($p) | update) | ., break $out), setpath($p; null));
+def _modify_alt_s(paths; $v): (try [path(paths)] catch \"__err__\") as $ps | if $ps == \"__err__\" then _unmodelled else _modify_s(paths; . // $v) end;
 def _split_s($x): if . == \"\" then _unmodelled else _split_j($x) end;
 def _trim_s: if type == \"string\" then _trim_j else _unmodelled end;
 def _ltrim_s: if type == \"string\" then _ltrim_j else _unmodelled end;
